@@ -98,7 +98,15 @@ def build_object(spec):
     if c == "TVD":
         kw = dict(method=spec["method"], weight=spec["weight"], max_num_iter=spec["max_num_iter"], eps=spec["eps"])
         if spec["method"] == "heterogeneous bregman":
-            kw.update(omega=spec.get("omega", 1.0), regularization=spec.get("regularization", 1.0))
+            kw.update(omega=spec.get("omega", 1.0))
+            if spec.get("regularization") is not None:
+                # NOTE: TVD reads this keyword without removing it and split_bregman_tvd rejects it (TypeError in
+                # history and reference alike); kept as a rare input, counted by probe both-raised
+                kw["regularization"] = spec["regularization"]
+            if spec.get("x0"):
+                # documented warm start (image and split-Bregman variables), given once at construction
+                shp = tuple(spec["x0"]["shape"])
+                kw["x0"] = (arr_from(spec["x0"]), np.zeros(shp + (len(shp),)), np.zeros(shp + (len(shp),)))
         return darsia.TVD(**kw)
     if c == "W1":
         return w1.build(spec["cfg"])
@@ -143,7 +151,9 @@ def exec_op(op, objs):
         else:
             kw = dict(method=op["method"], weight=op["weight"], max_num_iter=op["iters"], eps=op.get("eps", 2e-4))
             if op["method"] == "heterogeneous bregman":
-                kw.update(omega=op.get("omega", 1.0), regularization=op.get("regularization", 1.0))
+                kw.update(omega=op.get("omega", 1.0))
+                if op.get("regularization") is not None:
+                    kw["regularization"] = op["regularization"]
             r = darsia.tvd(img_from(op["img"]), **kw)
         return r.img if isinstance(r, darsia.Image) else r
     if k == "JACOBI":
@@ -233,6 +243,22 @@ class _Interrupt:
                     raise KeyboardInterrupt("injected interrupt inside the distance computation")
             return me.orig_ls(self_, *a, **k)
         wm.VariationalWassersteinDistance.linear_solve = wrapped_ls
+        # third hook: the restriction operator of the multigrid solver (residuals and, for array coefficients, the
+        # coefficients themselves are restricted with it) - an allocation failure while descending a level
+        if not hasattr(darsia.MG, "restriction"):
+            raise HarnessError("seam missing: MG.restriction")
+        self.orig_restr = darsia.MG.restriction
+
+        def wrapped_restr(self_, x):
+            if me.at is not None and me.where == "restrict":
+                i = me.count
+                me.count += 1
+                if i == me.at:
+                    me.fired = True
+                    me.at = None
+                    raise MemoryError("injected allocation failure inside MG.restriction")
+            return me.orig_restr(self_, x)
+        darsia.MG.restriction = wrapped_restr
         orig_na = wrapped
 
         def gated(self_, im):
@@ -305,7 +331,7 @@ def child_history(case, schedule, with_faults=True, reseed=None):
                     amg_proxy = _PyamgProxy(wm.pyamg, f["occurrence"])
                     amg_real, wm.pyamg = wm.pyamg, amg_proxy
                 elif f["step"] == step:
-                    intr.arm(f["occurrence"], "w1" if op["op"] == "W1" else "jacobi")
+                    intr.arm(f["occurrence"], "w1" if op["op"] == "W1" else f.get("site", "jacobi"))
         try:
             r, exc = exec_op(op, objs), None
         except KeyboardInterrupt:
@@ -406,6 +432,7 @@ class C16Engine(Engine):
                        "numba (real compiler), skimage, scipy, pyamg", "os.fork of a process that only imported darsia (pristine process)"]
     components_stub = ["name 'njit' in darsia.restoration.split_bregman_tvd -> memoising decorator around the real numba.njit (compile once per process)",
                        "Jacobi._neighbor_accumulation wrapped to raise KeyboardInterrupt at the n-th call (interrupt fault)",
+                       "MG.restriction wrapped to raise MemoryError at the n-th call (allocation failure while descending a level)",
                        "numpy/python/OpenCV global RNGs reseeded, tracemalloc flipped, wasserstein clock skewed between steps"]
     assumptions = ["'pristine process' = fork of a process that imported darsia (and pre-compiled the numba shrink kernel through an explicit solver object) and never executed another library call; a sample is re-run in a cold interpreter by the determinism check",
                    "parameters 'set for' an explicit solver are those of its constructor merged with every later update_params, including the documented update_params performed by H1/split-Bregman on a solver passed to them",
@@ -463,7 +490,9 @@ class C16Engine(Engine):
             objs[f"{cname}.t0"] = {"cls": "TVD", "method": r.choice(["chambolle", "anisotropic bregman", "isotropic bregman",
                                                                       "heterogeneous bregman"]),
                                    "weight": r.choice([0.05, 0.1, 0.5]), "max_num_iter": r.randint(1, 4), "eps": 1e-6,
-                                   "omega": r.choice([0.5, 1.0]), "regularization": r.choice([0.5, 1.0, 2.0])}
+                                   "omega": r.choice([0.5, 1.0]), "regularization": r.choice([None, None, None, None, None, 0.5, 2.0])}
+            if objs[f"{cname}.t0"]["method"] == "heterogeneous bregman" and r.random() < 0.5:
+                objs[f"{cname}.t0"]["x0"] = {"id": r.randint(0, 9999), "shape": [r.randint(3, 7), r.randint(3, 7)]}
         if "w1" in alphabet:
             ls = r.choice(["direct", "direct", "amg", "amg", "cg"])
             form = "pressure" if ls != "direct" else r.choice(["pressure", "full"])
@@ -480,6 +509,15 @@ class C16Engine(Engine):
                 # stopping criteria that can actually end the iteration before num_iter (relative to the call's own history)
                 cfg.update(num_iter=r.randint(6, 14), tol_residual=r.choice([1e-1, 1.0]), tol_increment=r.choice([1e-1, 1e-2]),
                            tol_distance=r.choice([1e-2, 1e-3, 1e-4]))
+            if r.random() < 0.06:
+                # long runs: block-shaped masses on a larger grid with the library's usual tolerances; tens of Newton
+                # iterations amplify last-bit differences of a linear solve to 1e-3 in the distance (D29)
+                cfg.update(shape=[r.randint(6, 10), r.randint(7, 12)], voxel_size=[r.choice([0.05, 0.1]), r.choice([0.05, 0.1])],
+                           num_iter=r.randint(40, 120), tol_residual=1e-8, tol_increment=1e-5, tol_distance=1e-8,
+                           method=r.choice(["newton", "newton", "bregman"]), linear_solver="direct",
+                           formulation=r.choice(["pressure", "pressure", "full"]), aa_depth=r.choice([0, 0, 1]),
+                           l1_mode=r.choice(["constant_cell_projection", "raviart_thomas"]), mobility_mode="CELL_BASED", long=True)
+                ls = "direct"
             if r.random() < 0.5:
                 cfg["L"] = r.choice([0.5, 2.0, 10.0])
             if cfg["method"] == "bregman-adaptive":
@@ -506,11 +544,20 @@ class C16Engine(Engine):
                 kinds += ["W1BAD"]
         k = r.choice(kinds)
         solvers = ["default", "default", f"{cname}.j0"] + ([f"{cname}.m0"] if f"{cname}.m0" in objs else [])
+        def fit(op):
+            # keep calls that can only raise rare (probe both-raised): integer images make H1 raise in skimage's range
+            # check, and a multigrid solver needs 2**(depth+1) voxels per axis
+            if op["img"].get("dtype") == "uint8" and r.random() < 0.8:
+                op["img"]["dtype"] = "float64"
+            if op["solver"].endswith(".m0") and r.random() < 0.9:
+                lo = 2 ** (objs[op["solver"]]["depth"] + 1)
+                op["img"]["shape"] = [max(v, lo) for v in op["img"]["shape"]]
+            return op
         if k == "H1":
             dim = r.choice([2, 2, 2, 3])
-            return {"op": "H1", "img": self._img(r, dim=dim if dim == 2 else 3, allow_chan=dim == 2),
-                    "mu": r.choice([0.05, 0.1, 0.9, 2.0, 5.0]), "omega": r.choice([0.2, 1.0, 3.0]), "dim": dim,
-                    "solver": r.choice(solvers) if dim == 2 else r.choice(["default", f"{cname}.j0"])}
+            return fit({"op": "H1", "img": self._img(r, dim=dim if dim == 2 else 3, allow_chan=dim == 2),
+                        "mu": r.choice([0.05, 0.1, 0.9, 2.0, 5.0]), "omega": r.choice([0.2, 1.0, 3.0]), "dim": dim,
+                        "solver": r.choice(solvers) if dim == 2 else r.choice(["default", f"{cname}.j0"])})
         if k == "SBTVD":
             op = {"op": "SBTVD", "img": self._img(r, allow_chan=False, float_only=True), "mu": r.choice([0.05, 0.2, 1.0]),
                   "omega": r.choice([0.5, 1.0, 2.0]), "ell": r.choice([None, 0.5, 2.0]), "dim": 2, "iters": r.randint(1, 3),
@@ -518,7 +565,9 @@ class C16Engine(Engine):
             op["img"].pop("form", None)
             if r.random() < 0.2:
                 op["adaptive"] = r.choice(["every-1", "every-2"])
-            return op
+                if op["isotropic"] and r.random() < 0.8:
+                    op["isotropic"] = False  # the isotropic shrinkage has no compiled variant for array-valued mu / ell
+            return fit(op)
         if k == "JACOBI":
             shp = objs[f"{cname}.j0"].get("hshape") or [r.randint(3, 6), r.randint(3, 6)]
             if not objs[f"{cname}.j0"].get("hshape") and r.random() < 0.25:
@@ -548,15 +597,20 @@ class C16Engine(Engine):
             return op
         if k == "TVD":
             if r.random() < 0.5:
-                return {"op": "TVD", "obj": f"{cname}.t0", "img": self._img(r, allow_chan=False, float_only=True)}
+                im = self._img(r, allow_chan=False, float_only=True)
+                if objs[f"{cname}.t0"].get("x0"):
+                    im["shape"] = list(objs[f"{cname}.t0"]["x0"]["shape"])  # a warm start fixes the image shape
+                return {"op": "TVD", "obj": f"{cname}.t0", "img": im}
             return {"op": "TVD", "img": self._img(r, allow_chan=False, float_only=True),
                     "method": r.choice(["chambolle", "anisotropic bregman", "isotropic bregman", "heterogeneous bregman"]),
                     "weight": r.choice([0.05, 0.1, 0.5]), "iters": r.randint(1, 4), "eps": 1e-6,
-                    "omega": r.choice([0.5, 1.0]), "regularization": r.choice([0.5, 2.0])}
+                    "omega": r.choice([0.5, 1.0]), "regularization": r.choice([None, None, None, None, None, 0.5, 2.0])}
         if k == "W1BAD":
             return {"op": "W1BAD", "obj": f"{cname}.w0", "pair": {"kind": "dense", "id": r.randint(0, 9999)}}
         if k == "W1":
             pair = {"kind": r.choice(["dense", "dense", "compact"]), "id": r.randint(0, 9999)}
+            if objs[f"{cname}.w0"]["cfg"].get("long"):
+                pair["kind"] = "blocks"
             if r.random() < 0.3:
                 pair["scale"] = r.choice([0.125, 8.0, 64.0])
             return {"op": "W1", "obj": f"{cname}.w0", "pair": pair}
@@ -569,7 +623,7 @@ class C16Engine(Engine):
         fl = substream(seed, "faults")
         env = substream(seed, "env")
         # swarm: which parts of the alphabet exist in this run
-        alphabet = set(cfg.choice([["solver"], ["solver"], ["solver"], ["solver", "tvd"], ["anderson"], ["w1"], ["w1"],
+        alphabet = set(cfg.choice([["solver"], ["solver"], ["solver"], ["solver", "tvd"], ["tvd"], ["tvd"], ["anderson"], ["w1"], ["w1"],
                                    ["solver", "anderson"], ["solver", "w1"], ["solver", "hetero"], ["solver", "hetero"]]))
         ncl = cfg.choice([1, 1, 2, 2, 3])
         objects, clients = {}, {}
@@ -605,6 +659,10 @@ class C16Engine(Engine):
         faults = []
         if ("solver" in alphabet or "w1" in alphabet) and cfg.random() < 0.25:
             faults.append({"step": fl.randint(0, len(order) - 1), "occurrence": fl.randint(0, 6), "kind": "solve-interrupt"})
+            mg_steps = [i for i, c_ in enumerate(order) if self._op_at(clients, order, i)["op"] == "MG"]
+            if "hetero" in alphabet and mg_steps and fl.random() < 0.7:
+                # MemoryError inside MG.restriction (k-th residual / coefficient restriction of that call)
+                faults[-1].update(site="restrict", step=fl.choice(mg_steps), occurrence=fl.choice([0, 1, 2, 2, 2, 3, 4, 5]))
         elif "w1" in alphabet and cfg.random() < 0.3:
             # the k-th multigrid set-up of a distance call fails (after drawing its random vectors); inside the iteration
             # the library handles the failure and the call returns
@@ -617,6 +675,11 @@ class C16Engine(Engine):
                              "value": env.randint(0, 2**31 - 1)})
         return {"engine": self.name, "seed": seed, "objects": objects, "clients": clients, "schedule": order,
                 "faults": faults, "env": envp}
+
+    @staticmethod
+    def _op_at(clients, order, i):
+        c = order[i]
+        return clients[c][order[:i].count(c)]
 
     # ------------------------------------------------------------------ model of 'parameters set for it'
     @staticmethod
@@ -669,7 +732,7 @@ class C16Engine(Engine):
             was_tainted = target in tainted
             self._model_step(model, tainted, op, objects)
             if fired:
-                kinds = [f.get("kind") for f in case.get("faults", []) if f["step"] == step]
+                kinds = [f.get("kind") + (":" + f["site"] if f.get("site") else "") for f in case.get("faults", []) if f["step"] == step]
                 out.counters["fault:" + (kinds[0] if kinds else "solve-interrupt")] += 1
                 faulted_objs.add(state_key)
                 out.event(client=c, op=op["op"], target=target, interrupted=True)
@@ -718,6 +781,8 @@ class C16Engine(Engine):
             after_fault = state_key in faulted_objs
             oracle = "C16.R" if after_fault else "C16.F"
             culprit = self._culprit(op, ospec, prior, desc)
+            if exc is not None and rexc is not None:
+                out.counters[f"probe:both-raised({op['op']}:{exc})"] += 1  # a call that claims nothing: watch the share
             if (exc is None) != (rexc is None):
                 out.violate(oracle, culprit, step, got_exc=exc, pristine_exc=rexc, op=op, object=ospec, earlier=prior[-3:])
             elif exc is None:
